@@ -106,6 +106,14 @@ func c03Write(c *fw.Case, dir string, kvs []kv, dataComp, idxComp int) (string, 
 	return cfg, w.Close()
 }
 
+// cloneVal copies a value, keeping nil and empty apart
+func cloneVal(v []byte) []byte {
+	if v == nil {
+		return nil
+	}
+	return append([]byte{}, v...)
+}
+
 func drainSST(it sstables.SSTableIteratorI, max int) ([]kv, error) {
 	var out []kv
 	for {
@@ -354,6 +362,39 @@ func c03Probe(c *fw.Case, rd sstables.SSTableReaderI, kvs []kv, model map[string
 		}
 		if d := sameKVs(got, kvs); d != "" {
 			c.Violate("sstable/scan-mismatch"+feat, "%s: Scan(): %s", cfg, d)
+			return
+		}
+	}
+	// two full scans of the same reader alive at once: the first is read half way, a second one is opened and drained,
+	// then the first is finished — each must deliver the whole table
+	if len(kvs) >= 2 {
+		itA, errA := rd.Scan()
+		var gotA []kv
+		half := len(kvs) / 2
+		for i := 0; errA == nil && i < half; i++ {
+			k, v, err := itA.Next()
+			if err != nil {
+				errA = err
+				break
+			}
+			gotA = append(gotA, kv{append([]byte{}, k...), cloneVal(v)})
+		}
+		itB, errB := rd.Scan()
+		var gotB []kv
+		if errB == nil {
+			gotB, errB = drainSST(itB, len(kvs)+1)
+		}
+		if errA == nil {
+			rest, err := drainSST(itA, len(kvs)+1)
+			gotA, errA = append(gotA, rest...), err
+		}
+		c.Obs("simultaneous_full_scans", 1)
+		if errA != nil || errB != nil {
+			c.Violate("sstable/simultaneous-scans-iter-error"+feat, "%s: two full scans alive at once: first %v, second %v", cfg, errA, errB)
+			return
+		}
+		if d := sameKVs(gotA, kvs) + sameKVs(gotB, kvs); d != "" {
+			c.Violate("sstable/simultaneous-scans-mismatch"+feat, "%s: two full scans alive at once: %s", cfg, d)
 			return
 		}
 	}
